@@ -9,12 +9,12 @@ import sys
 import time
 from pathlib import Path
 
-V = Path('/verif')
+V = Path(os.environ.get('VERIF_ROOT', '/verif'))
 args = [a for a in sys.argv[1:] if not a.startswith('--')]
 props_override = next((a.split('=', 1)[1].split(',') for a in sys.argv[1:] if a.startswith('--props=')), None)
 ids = args or sorted(p.name for p in (V / 'seeded').iterdir() if (p / 'patch.diff').exists())
 # one scratch worktree per property, so several people can run this at the same time
-WT = Path('/tmp/wt/_run_' + (ids[0].split('-')[0] if args else 'all'))
+WT = Path(os.environ.get('SEEDRUN_WT_ROOT', '/tmp/wt') + '/_run_' + (ids[0].split('-')[0] if args else 'all'))
 if not (WT / 'pyamg').exists():
     subprocess.run([str(V / 'harness' / 'mkworktree.sh'), str(WT)], check=True, stdout=subprocess.DEVNULL)
 head = subprocess.run(['git', '-C', '/repo', 'rev-parse', 'HEAD'], capture_output=True, text=True).stdout.strip()
